@@ -263,6 +263,9 @@ Qed.
 Lemma init_pm_no_foreign : forall app me mk, no_foreign_invite_token (init_pm app me mk) [].
 Proof. intros app me mk inv t Hin. cbn in Hin. destruct Hin as [Hin|[]]. discriminate Hin. Qed.
 
+Lemma table_holds : forall app me mk ops, spec_ops app [] ops (run_ops (init_pm app me mk) ops) = true.
+Proof. intros app me mk ops. exact (spec_ops_run (fun tk _ => tk) ops (init_pm app me mk) [] (init_pm_no_foreign app me mk)). Qed.
+
 Lemma successes_le_attempts : forall inv ops obs, (successes inv ops obs <= attempts inv ops)%nat.
 Proof.
   intros inv. induction ops as [|op ops IH]; intros obs; [destruct obs; cbn; lia|].
@@ -361,7 +364,7 @@ Proof.
                 (count_owned inv (pm_tokens m) + (if N.eqb i inv then 1 else 0))%nat).
     { unfold create_invite, push. cbn [pm_tokens]. rewrite count_owned_app. f_equal.
       unfold count_owned. cbn [filter fst snd token_eqb is_owned]. destruct (N.eqb i inv); reflexivity. }
-    fold (creates inv ops) in *. Show. destruct (N.eqb i inv); cbn [length] in *; lia.
+    unfold creates in *. destruct (N.eqb i inv); cbn [length] in *; lia.
   - (* accept *)
     unfold creates. cbn [filter]. fold (creates inv ops).
     destruct (accept_invite m b) as [m'|] eqn:A; cbn [owned_successes].
@@ -396,10 +399,11 @@ Proof.
     + (* an owned invitation j: it sits under TkInvite j, and the repaired removal takes it out *)
       assert (Etk : tok_of_ref m tr = TkInvite j).
       { apply token_eqb_eq in Htk. rewrite <- Htk. destruct e as [tk t0]. cbn [fst snd] in *. subst t0. apply P. exact Hin. }
-      unfold invite_accepted_fixed, invite_accepted_at.
       set (m1 := push m (token_of (pm_secret m) (p_pub p)) (TAllowed (p_key p))).
       set (m' := {| pm_app := pm_app m1; pm_secret := pm_secret m1;
                     pm_tokens := remove_first (TkInvite j) (is_owned j) (pm_tokens m1) |}).
+      assert (CC : invite_accepted_fixed m (TOwned j) p = Some m') by reflexivity.
+      rewrite CC.
       assert (P1 : owned_placed (pm_tokens m1)).
       { intros t0 i0 Hi. unfold m1, push in Hi. cbn [pm_tokens] in Hi. apply in_app_or in Hi.
         destruct Hi as [Hi|[Hi|[]]]; [apply P; exact Hi | discriminate Hi]. }
@@ -411,7 +415,7 @@ Proof.
       destruct tr as [i|q|].
       * cbn [tok_of_ref] in Etk. inversion Etk; subst i.
         destruct (N.eqb j inv) eqn:Ej.
-        -- apply N.eqb_eq in Ej. subst j. cbn [Z.eqb andb].
+        -- apply N.eqb_eq in Ej. subst j. cbn [Z.eqb Pos.eqb andb].
            assert (D : S (count_owned inv (pm_tokens m')) = count_owned inv (pm_tokens m1)).
            { unfold m'. cbn [pm_tokens]. apply remove_first_owned_dec.
              exists e. split.
@@ -426,10 +430,11 @@ Proof.
       * pose proof (remove_first_count inv (TkInvite j) (is_owned j) (pm_tokens m1)) as R.
         unfold m' in IH at 2. cbn [pm_tokens] in IH. lia.
     + (* a received invitation: owned entries are not touched *)
-      unfold invite_accepted_fixed, invite_accepted_at.
       set (m1 := push m (token_of (pm_secret m) (p_pub p)) (TAllowed (p_key p))).
       set (m' := {| pm_app := pm_app m1; pm_secret := pm_secret m1;
                     pm_tokens := remove_first (TkInvite j) (is_invite j) (pm_tokens m1) |}).
+      assert (CC : invite_accepted_fixed m (TInvite j a s) p = Some m') by reflexivity.
+      rewrite CC.
       assert (P1 : owned_placed (pm_tokens m1)).
       { intros t0 i0 Hi. unfold m1, push in Hi. cbn [pm_tokens] in Hi. apply in_app_or in Hi.
         destruct Hi as [Hi|[Hi|[]]]; [apply P; exact Hi | discriminate Hi]. }
@@ -502,7 +507,8 @@ Proof.
   unfold probe_rel. apply andb_true_iff. split.
   - destruct (Nat.eqb (fst p) (snd q) && Nat.eqb (snd p) (fst q)) eqn:S; [|reflexivity].
     apply andb_true_iff in S. destruct S as [S1 S2]. apply Nat.eqb_eq in S1, S2.
-    rewrite S1 in Pa. rewrite S2 in Pb. rewrite Pa in Qd. rewrite Pb in Qc. inversion Qd; inversion Qc; subst.
+    rewrite S1 in Pa. rewrite S2 in Pb.
+    assert (Ed : d = a) by congruence. assert (Ec : c = b) by congruence. subst c d.
     rewrite (token_of_sym a b (NC a b eq_refl eq_refl)).
     assert (E : token_eqb (token_of b (s_pub a)) (token_of b (s_pub a)) = true) by (apply token_eqb_eq; reflexivity).
     rewrite E. reflexivity.
@@ -549,7 +555,7 @@ Proof.
            ++ reflexivity.
            ++ cbn in L. lia.
            ++ destruct (all_some_map _ _ _ R') as [_ N']. exact N'.
-    + apply IH; try assumption. intros p0 a b Hin. apply NC. right. exact Hin.
+    + apply IH; try assumption; [|reflexivity]. intros p0 a b Hin. apply NC. right. exact Hin.
 Qed.
 
 (* known class 2 is exactly the negation of no_clash *)
